@@ -724,6 +724,114 @@ func (a *stateAnalysis) refine(s stateSet, b *ssa.BasicBlock, at condAtom, bind 
 			}
 		}
 	}
+	// a disjunction/conjunction of state tests materialised as a named boolean
+	// (`ok := st == A || st == B; if !ok`): evaluated per state value by
+	// following the pure test blocks from the dominator of the join
+	if ph, ok := at.V.(*ssa.Phi); ok && at.True != 0 {
+		if bt, ok := ph.Type().Underlying().(*types.Basic); ok && bt.Kind() == types.Bool {
+			pure := func(x *ssa.BasicBlock) bool {
+				for _, i := range x.Instrs {
+					switch i.(type) {
+					case *ssa.FieldAddr, *ssa.UnOp, *ssa.BinOp, *ssa.If, *ssa.DebugRef, *ssa.Phi, *ssa.Jump:
+					default:
+						return false
+					}
+				}
+				return true
+			}
+			evalFor := func(single stateSet) (bool, bool) {
+				var evalV func(v ssa.Value) (bool, bool)
+				evalV = func(v ssa.Value) (bool, bool) {
+					switch x := v.(type) {
+					case *ssa.Const:
+						if x.Value != nil && x.Value.Kind() == constant.Bool {
+							return constant.BoolVal(x.Value), true
+						}
+					case *ssa.UnOp:
+						if x.Op == token.NOT {
+							r, ok := evalV(x.X)
+							return !r, ok
+						}
+					case *ssa.BinOp:
+						if x.Op == token.EQL || x.Op == token.NEQ {
+							l, r := x.X, x.Y
+							if !isStateLoad(l) && isStateLoad(r) {
+								l, r = r, l
+							}
+							if ld, ok := loadedField(l); ok && a.isStateField(ld) {
+								if k, ok := constOf(r); ok {
+									return (single&k != 0) == (x.Op == token.EQL), true
+								}
+							}
+						}
+					}
+					return false, false
+				}
+				head := ph.Block().Idom()
+				if head == nil {
+					return false, false
+				}
+				for _, pr := range ph.Block().Preds {
+					if ph.Block().Dominates(pr) {
+						return false, false // a loop-carried flag: not a function of the state alone
+					}
+				}
+				var prev *ssa.BasicBlock
+				cur := head
+				for k := 0; k < 16; k++ {
+					if cur == ph.Block() {
+						for j, pr := range cur.Preds {
+							if pr == prev {
+								return evalV(ph.Edges[j])
+							}
+						}
+						return false, false
+					}
+					if cur != head && !pure(cur) {
+						return false, false
+					}
+					switch t := cur.Instrs[len(cur.Instrs)-1].(type) {
+					case *ssa.If:
+						v, ok := evalV(t.Cond)
+						if !ok {
+							return false, false
+						}
+						prev = cur
+						if v {
+							cur = cur.Succs[0]
+						} else {
+							cur = cur.Succs[1]
+						}
+					case *ssa.Jump:
+						prev, cur = cur, cur.Succs[0]
+					default:
+						return false, false
+					}
+				}
+				return false, false
+			}
+			var ns stateSet
+			decided := true
+			for bit := 0; bit < 5; bit++ {
+				single := stateSet(1 << uint(bit))
+				if s&single == 0 {
+					continue
+				}
+				v, ok := evalFor(single)
+				if !ok {
+					decided = false
+					break
+				}
+				if v == (at.True == 1) {
+					ns |= single
+				}
+			}
+			if decided {
+				return ns
+			}
+			return s
+		}
+	}
 	// result of a state-reading function
 	if c, idx := callOf(at.V); c != nil {
 		_ = idx
